@@ -224,7 +224,15 @@ def _read_chunked(buf, pos, m):
             return False
         line, nxt, term = ln
         if term == "lf":
-            m.notes.append("bare-lf-in-chunked")
+            # RFC 9112 section 2.2 lets a recipient take a bare LF as the terminator of the start-line and of FIELD
+            # lines only; the chunk-size line is "chunk-size [ chunk-ext ] CRLF" (section 7.1) with no such licence,
+            # and a proxy that reads it leniently disagrees with strict peers about where chunk data starts
+            # (the CVE-2023-46846 class).  So a strict reader cannot delimit this body.
+            m.body = bytes(body)
+            m.verdict = "bad-body"
+            m.reason = "chunk-size line terminated by a bare LF"
+            m.code = "chunk-size-line-bare-lf"
+            return False
         cm = re.match(rb"^([0-9A-Fa-f]+)(.*)$", line, re.S)
         if not cm or not CHUNK_EXT.match(cm.group(2)):
             m.body = bytes(body)
@@ -281,8 +289,11 @@ def _read_chunked(buf, pos, m):
         if buf[pos:pos + 2] == b"\r\n":
             pos += 2
         elif buf[pos:pos + 1] == b"\n":
-            m.notes.append("bare-lf-in-chunked")
-            pos += 1
+            m.body = bytes(body)
+            m.verdict = "bad-body"
+            m.reason = "chunk data followed by a bare LF"
+            m.code = "chunk-data-followed-by-bare-lf"
+            return False
         elif len(buf) - pos < 2 and buf[pos:pos + 1] in (b"", b"\r"):
             m.body = bytes(body)
             m.verdict = "incomplete"
